@@ -154,3 +154,21 @@ impl<'a> DivAssign<&Reduced<'a>> for Reduced<'a> {
         *self = (&*self).div(rhs)
     }
 }
+
+/// Verification hook (only with `--cfg dashu_verif`): `inv_large` of this file for a modulus and a residue
+/// (below the modulus) given as words; returns the inverse residue as words, if any.
+#[cfg(dashu_verif)]
+pub fn verif_inv_large(
+    modulus: &[crate::arch::word::Word],
+    residue: &[crate::arch::word::Word],
+) -> Option<alloc::boxed::Box<[crate::arch::word::Word]>> {
+    let ring = ConstLargeDivisor::new(Buffer::from(modulus));
+    let mut raw = Buffer::allocate_exact(modulus.len());
+    raw.push_slice(residue);
+    raw.push_zeros(modulus.len() - residue.len());
+    debug_assert_zero!(shl_in_place(&mut raw, ring.shift));
+    let inv = inv_large(&ring, ReducedLarge(raw.into_boxed_slice()))?;
+    let mut out = Buffer::from(inv.0.deref());
+    debug_assert_zero!(shr_in_place(&mut out, ring.shift));
+    Some(out.into_boxed_slice())
+}
